@@ -46,7 +46,11 @@ theorem extraOk_get? {a : Attrs} (h : extraOk a = true) {k : Str} (hk : k ∈ re
     List.contains_eq_mem, decide_eq_false_iff_not] at h
   rw [Dict.get?_eq_none_iff]
   intro hm
-  exact h.2 k hm hk
+  exact (h.2 k hm).1 hk
+
+theorem extraOk_stable {a : Attrs} (h : extraOk a = true) {k : Str} (hk : k ∈ Dict.keys a) : rstripUnderscore k = k := by
+  simp only [extraOk, Bool.and_eq_true, decide_eq_true_eq, List.all_eq_true, beq_iff_eq] at h
+  exact (h.2 k hk).2
 
 theorem extraOk_headD {es : List Attrs} (h : es.all extraOk = true) : extraOk (es.headD []) = true := by
   cases es with
@@ -475,7 +479,7 @@ theorem optionGroup_posts (T : Tables) (ctx : Ctx) (hT : TablesOK T) (hL : Live 
     have e1 := option_posts T ctx hT hL b n l (es.headD []) (extraOk_headD hes) hn (m l) (hm l) p hp
     have e2 := ih es.tail (extraOk_tail hes) q hq
     subst e1; subst e2
-    cases hml : m l <;> simp [List.filter_cons, hml]
+    cases hml : m l <;> simp [hml]
 
 /-- a group of check controls `value=l` (l ∈ lits): one pair per matching literal -/
 theorem checkGroup_posts (T : Tables) (ctx : Ctx) (b : Bind) (ty : Str) (m : Str → Bool)
@@ -495,6 +499,6 @@ theorem checkGroup_posts (T : Tables) (ctx : Ctx) (b : Bind) (ty : Str) (m : Str
     have e1 := hone l (es.headD []) (extraOk_headD hes) p hp
     have e2 := ih es.tail (extraOk_tail hes) q hq
     subst e1; subst e2
-    cases hml : m l <;> simp [List.filter_cons, hml]
+    cases hml : m l <;> simp [hml]
 
 end Flatland.C12.Proofs
